@@ -102,6 +102,8 @@ pub fn next_solution_or<'a>(sn: Rc<RefCell<SolutionNode<'a>>>)
 
     match solution {
         None => {
+            // A cut executed in the head goal also cuts the alternatives.
+            if sn_ref.no_backtracking { return None; }
             match &sn_ref.operator_tail {
                 None => { return solution; },
                 Some(tail) => {
